@@ -17,7 +17,7 @@ use std::path::{Path, PathBuf};
 pub static SPEC: PropSpec = PropSpec {
     id: "C13",
     level: "exploration",
-    rule: "cases: the 8 corpus projects, the 74 single-file corpus programs, generated multi-package projects (1-6 libraries, 1-3 files per package, cross-package traits/impls/generics) ill-typed variants with errors injected in several files (diagnostic order), and 20 ambiguity programs in which the compiler picks among candidates (2-4 enums sharing a variant that is used unqualified in 4 positions, one method declared by two / three bounds, duplicate impls / functions / types, 12 independent errors, a variant and a struct of one name, equally named inherent methods, several missing imports; observed 2R times); each is observed R times (R=5 quick, 12 thorough) under different creation orders, filesystems, threads and one fresh process; a case is non-trivial when it has >= 2 imports or >= 2 diagnostics and at least two runs differed in directory enumeration order or probe-HashSet order; distinct by hash of the file set",
+    rule: "cases: the 8 corpus projects, the 74 single-file corpus programs, generated multi-package projects (1-6 libraries, 1-3 files per package, cross-package traits/impls/generics) ill-typed variants with errors injected in several files (diagnostic order), every multi-file package of those projects re-checked and re-built through the separate-compilation entry points from files relocated to several directories under one file name with the input list in R orders and with entries listed twice, and 20 ambiguity programs in which the compiler picks among candidates (2-4 enums sharing a variant that is used unqualified in 4 positions, one method declared by two / three bounds, duplicate impls / functions / types, 12 independent errors, a variant and a struct of one name, equally named inherent methods, several missing imports; observed 2R times); each is observed R times (R=5 quick, 12 thorough) under different creation orders, filesystems, threads and one fresh process; a case is non-trivial when it has >= 2 imports or >= 2 diagnostics and at least two runs differed in directory enumeration order or probe-HashSet order; distinct by hash of the file set",
     eval_counter: "runs_compared",
     assumptions: &[
         "directory enumeration order is varied through tmpfs creation order and one ext4 copy; the orders actually read back are counted in the evidence",
@@ -29,7 +29,7 @@ pub static SPEC: PropSpec = PropSpec {
     case_cpu_s: 120,
     shards: 0,
     run,
-    floors: &[("runs_compared", 300, 5_000), ("distinct_dir_orders_seen_cases", 10, 100), ("distinct_hash_orders_seen_cases", 10, 100), ("cases_with_diagnostics", 5, 50)],
+    floors: &[("runs_compared", 300, 5_000), ("distinct_dir_orders_seen_cases", 10, 100), ("distinct_hash_orders_seen_cases", 10, 100), ("cases_with_diagnostics", 5, 50), ("input_list_orders_compared", 40, 800)],
     finish: None,
 };
 
@@ -187,6 +187,122 @@ pub fn check_project(case: &mut Case, label: &str, files: &[(PathBuf, String)], 
     case.sample(json!({"workload": label.split('/').next().unwrap_or(label), "files": files.iter().map(|(p, _)| p.display().to_string()).collect::<Vec<_>>(),
         "dir_orders_seen": dir_orders.len(), "hash_orders_seen": hash_orders.len(),
         "artifacts_compared": baseline.as_ref().map(|b| b.len()).unwrap_or(0)}));
+}
+
+/// The separate-compilation entry points take the package's source files as a LIST: a package whose files sit in
+/// several directories under equal file names (`part0/lib.gom`, `part1/lib.gom`, ...) is checked and built with that
+/// list in different orders (as another directory enumeration / glob expansion would give it) and with entries listed
+/// twice: interface, core, hash and diagnostics must not depend on it.
+pub fn check_input_orders(case: &mut Case, label: &str, files: &[(PathBuf, String)], rng: &mut Rng, runs: usize, scratch: &Path) {
+    use compiler::pipeline::separate;
+    let key = hash_str(&format!("{}|{}", label, files.len()));
+    let root = scratch.join(format!("c13-inputs-{}-{}", std::process::id(), util::hex64(key)));
+    let _ = std::fs::remove_dir_all(&root);
+    let order: Vec<usize> = (0..files.len()).collect();
+    if projgen::materialize(&root, files, &order).is_err() {
+        case.inconclusive("could not materialise project");
+        return;
+    }
+    let Ok((topo, dirs, _)) = projdrv::discover(&root) else {
+        let _ = std::fs::remove_dir_all(&root);
+        return;
+    };
+    let art = root.join(".artifacts");
+    // artifacts of every package in the normal layout (dependencies of the packages re-built below)
+    let root2 = root.clone();
+    let (topo2, dirs2, art2) = (topo.clone(), dirs.clone(), art.clone());
+    let ok = std::thread::Builder::new().stack_size(64 << 20).spawn(move || projdrv::observe_separate(&root2, &topo2, &dirs2, &art2).accepted).map(|h| h.join());
+    if !matches!(ok, Ok(Ok(_))) {
+        let _ = std::fs::remove_dir_all(&root);
+        case.inconclusive("compiler panicked while observing (a C04 event)");
+        return;
+    }
+    for pkg in &topo {
+        let Some(dir) = dirs.get(pkg) else { continue };
+        let srcs = projdrv::gom_files(dir);
+        if srcs.len() < 2 {
+            continue;
+        }
+        // relocate: file k (in sorted order) becomes <root>/.multi/<pkg>/part<k>/lib.gom
+        let mut inputs: Vec<PathBuf> = Vec::new();
+        for (k, p) in srcs.iter().enumerate() {
+            let d = root.join(".multi").join(pkg).join(format!("part{}", k));
+            let _ = std::fs::create_dir_all(&d);
+            let dst = d.join("lib.gom");
+            if std::fs::copy(p, &dst).is_err() {
+                case.inconclusive("could not relocate package files");
+                let _ = std::fs::remove_dir_all(&root);
+                return;
+            }
+            inputs.push(dst);
+        }
+        let mut baseline: Option<Obs> = None;
+        for r in 0..runs.max(3) {
+            let mut list = inputs.clone();
+            match r {
+                0 => {}
+                1 => list.reverse(),
+                _ => rng.shuffle(&mut list),
+            }
+            if r >= 2 && r % 2 == 0 {
+                // one file listed twice, the copies apart from each other
+                let dup = list[0].clone();
+                list.push(dup);
+            }
+            let (pkg2, art2, root2, list2) = (pkg.clone(), art.clone(), root.clone(), list.clone());
+            let h = std::thread::Builder::new().stack_size(64 << 20).spawn(move || {
+                let mut o = Obs::new();
+                match separate::check_package(separate::PackageInputs { package: pkg2.clone(), input_files: list2.clone(), interface_paths: vec![art2.clone()] }) {
+                    Ok(unit) => {
+                        o.insert("check.interface".into(), serde_json::to_string_pretty(&unit).unwrap_or_default());
+                        o.insert("check.hash".into(), unit.interface_hash.clone());
+                    }
+                    Err(e) => {
+                        o.insert("check.err".into(), projdrv::diag_lines(&e, &root2));
+                    }
+                }
+                match separate::build_package(separate::PackageInputs { package: pkg2, input_files: list2, interface_paths: vec![art2] }) {
+                    Ok(unit) => {
+                        o.insert("build.interface".into(), serde_json::to_string_pretty(&unit.interface).unwrap_or_default());
+                        o.insert("build.core".into(), serde_json::to_string_pretty(&unit).unwrap_or_default());
+                        o.insert("build.hash".into(), unit.interface.interface_hash.clone());
+                    }
+                    Err(e) => {
+                        o.insert("build.err".into(), projdrv::diag_lines(&e, &root2));
+                    }
+                }
+                o
+            });
+            let obs = match h.map(|h| h.join()) {
+                Ok(Ok(o)) => o,
+                _ => {
+                    case.inconclusive("compiler panicked while observing (a C04 event)");
+                    let _ = std::fs::remove_dir_all(&root);
+                    return;
+                }
+            };
+            match &baseline {
+                None => baseline = Some(obs),
+                Some(b) => {
+                    case.count("input_list_orders_compared", 1);
+                    if b != &obs {
+                        let diffs: Vec<String> = b.keys().chain(obs.keys()).collect::<BTreeSet<_>>().into_iter().filter(|k| b.get(*k) != obs.get(*k)).cloned().collect();
+                        let first = diffs.first().cloned().unwrap_or_default();
+                        case.violation(
+                            format!("nondeterministic:input-list-order:{}", first),
+                            format!("package {} checked / built from the same files listed in another order ({}) differs in {} artifact(s), first: {}", pkg, list.iter().map(|p| p.strip_prefix(&root).unwrap_or(p).display().to_string()).collect::<Vec<_>>().join(" "), diffs.len(), first),
+                            json!({"label": label, "package": pkg, "differing": diffs, "list": list.iter().map(|p| p.display().to_string()).collect::<Vec<_>>(),
+                                   "first_a": util::truncate(b.get(&first).map(|s| s.as_str()).unwrap_or(""), 2000), "first_b": util::truncate(obs.get(&first).map(|s| s.as_str()).unwrap_or(""), 2000),
+                                   "files": files.iter().map(|(p, t)| json!({"path": p.display().to_string(), "text": t})).collect::<Vec<_>>()}),
+                        );
+                        break;
+                    }
+                }
+            }
+        }
+        case.count("multi_directory_packages", 1);
+    }
+    let _ = std::fs::remove_dir_all(&root);
 }
 
 pub fn read_tree(root: &Path) -> Vec<(PathBuf, String)> {
@@ -383,6 +499,11 @@ fn run(ctx: &mut Ctx) {
             runner::note_input(&label);
             check_project(c, &label, &files, &mut rng, runs, &scratch);
             c.count(if ill { "projects_ill_typed" } else { "projects_well_typed" }, 1);
+        });
+        let label2 = format!("input_orders/{}/{}", ctx.shard, i);
+        ctx.case(&label2.clone(), |c| {
+            runner::note_input(&label2);
+            check_input_orders(c, &label2, &files, &mut rng, runs, &scratch);
         });
     }
     crate::capi::cleanup_scratch();
